@@ -28,7 +28,7 @@ func c11() {
 		strace bool
 	}
 	var plans []plan
-	for rep := 0; rep < run.N(2, 30); rep++ {
+	for rep := 0; rep < run.N(4, 60); rep++ {
 		for _, mode := range []string{"plain", "gosched", "migrate"} {
 			for _, unpriv := range []bool{false, true} {
 				for _, nnp := range []bool{true, false} {
